@@ -66,7 +66,8 @@ where
         ok(b(Cv::<K>::hg(a).is_discrete()))
     }
     pub fn op_hg_coproduct(a: &RHG, bb: &RHG) -> Sx {
-        ok(Self::eh(&Cv::<K>::hg(a).coproduct(&Cv::<K>::hg(bb))))
+        let (x, y) = (Cv::<K>::hg(a), Cv::<K>::hg(bb));
+        ok(Self::eh(&(if a.w.len() % 2 == 1 { &x + &y } else { x.coproduct(&y) })))
     }
     pub fn op_hg_tensor_operations(x1: &[usize], a1: &RICS, b1: &RICS) -> Sx {
         ok(Self::eh(&Hypergraph::tensor_operations(Cv::<K>::ops(x1, a1, b1))))
@@ -118,10 +119,13 @@ where
         Self::eof(<OpenHypergraph<K, usize, usize> as Spider<K>>::half_spider(Cv::<K>::ff(s1), Cv::<K>::sf(w1)))
     }
     pub fn op_oh_tensor(a: &ROH, bb: &ROH) -> Sx {
-        ok(Self::ef(&Cv::<K>::oh(a).tensor(&Cv::<K>::oh(bb))))
+        // `|` and `>>` are sugar for tensor and compose: used when the left operand has an odd number of nodes
+        let (x, y) = (Cv::<K>::oh(a), Cv::<K>::oh(bb));
+        ok(Self::ef(&(if a.h.w.len() % 2 == 1 { &x | &y } else { x.tensor(&y) })))
     }
     pub fn op_oh_compose(a: &ROH, bb: &ROH) -> Sx {
-        Self::eof(Cv::<K>::oh(a).compose(&Cv::<K>::oh(bb)))
+        let (x, y) = (Cv::<K>::oh(a), Cv::<K>::oh(bb));
+        Self::eof(if a.h.w.len() % 2 == 1 { &x >> &y } else { x.compose(&y) })
     }
     pub fn op_oh_is_monogamous(a: &ROH) -> Sx {
         ok(b(Cv::<K>::oh(a).is_monogamous()))
@@ -351,9 +355,17 @@ where
                 }
                 _ => {
                     let mut h = gen::hg(&mut c.rng, &p);
-                    if c.rng.chance(2, 3) {
-                        let k = gen::dagify(&mut c.rng, &mut h);
-                        c.knob(k);
+                    match c.rng.below(3) {
+                        0 => {
+                            let k = gen::dagify(&mut c.rng, &mut h);
+                            c.knob(k);
+                        }
+                        1 => {
+                            let (d, k) = gen::dag_hg(&mut c.rng, c.size, &p);
+                            h = d;
+                            c.knob(k);
+                        }
+                        _ => {}
                     }
                     let a = h.clone();
                     c.emit("hg.is_acyclic", vec![h.enc()], move || Self::op_hg_is_acyclic(&a));
@@ -462,9 +474,18 @@ where
                 }
                 _ => {
                     let mut f = gen::oh(&mut c.rng, &p);
-                    if c.rng.chance(2, 3) {
-                        let k = gen::dagify(&mut c.rng, &mut f.h);
-                        c.knob(k);
+                    match c.rng.below(3) {
+                        0 => {
+                            let k = gen::dagify(&mut c.rng, &mut f.h);
+                            c.knob(k);
+                        }
+                        1 => {
+                            let (d, k) = gen::dag_hg(&mut c.rng, c.size, &p);
+                            let nn = d.w.len();
+                            f = ROH { s: RFF::new(gen::list_below(&mut c.rng, 3, nn), nn), t: RFF::new(gen::list_below(&mut c.rng, 3, nn), nn), h: d };
+                            c.knob(k);
+                        }
+                        _ => {}
                     }
                     let a = f.clone();
                     c.emit("oh.is_acyclic", vec![f.enc()], move || Self::op_oh_is_acyclic(&a));
